@@ -228,19 +228,24 @@ theorem views_agree_closeSpace (space : String) : KeepsInv (.closeSpace space) :
 theorem views_agree_closeStream (sid : Nat) : KeepsInv (.closeStream sid) :=
   fun _ h => Agree_closeStream h sid
 
+/-- `handleUnsubscribe` keeps the invariant -/
+theorem views_agree_unsubscribe (sid : Nat) (space : String) (topics : List String) :
+    KeepsInv (.unsubscribe sid space topics) :=
+  fun _ h => Agree_handleUnsubscribe h sid space topics
+
 /-- **views_agree_partial.** The full statement follows by induction over the history from the
-per-step obligations. NAMED GAP: `KeepsInv` for subscribe and unsubscribe is a hypothesis here;
-all other operations are proved above. -/
+per-step obligations. NAMED GAP: `KeepsInv` for subscribe is a hypothesis here; all other
+operations are proved above. -/
 theorem views_agree_partial
-    (hsub : ∀ sid peer ident space topics, KeepsInv (.subscribe sid peer ident space topics))
-    (hunsub : ∀ sid space topics, KeepsInv (.unsubscribe sid space topics)) : C17_views_agree_full := by
+    (hsub : ∀ sid peer ident space topics, KeepsInv (.subscribe sid peer ident space topics)) :
+    C17_views_agree_full := by
   intro a b c ops
   have hstep : ∀ op, KeepsInv op := by
     intro op
     cases op with
     | openStream sid peer ident => exact views_agree_open sid peer ident
     | subscribe sid peer ident space topics => exact hsub sid peer ident space topics
-    | unsubscribe sid space topics => exact hunsub sid space topics
+    | unsubscribe sid space topics => exact views_agree_unsubscribe sid space topics
     | publish peer ident space topic msgIdent relayed idLenOk big =>
       exact views_agree_publish peer ident space topic msgIdent relayed idLenOk big
     | closeStream sid => exact views_agree_closeStream sid
